@@ -72,10 +72,17 @@ pub fn op_de<T: DeserializeOwned + Serialize>(input: &Value) -> Value {
                                 o.insert("w2_err".into(), json!(format!("ser: {}", e)));
                             }
                             Ok(w2) => {
-                                if w2 != w {
+                                // Compare as JSON values: hash-map iteration order is not
+                                // part of the wire contract.
+                                let same = w2 == w
+                                    || matches!(
+                                        (serde_json::from_str::<Value>(&w2), serde_json::from_str::<Value>(&w)),
+                                        (Ok(a), Ok(b)) if a == b
+                                    );
+                                if !same {
                                     o.insert("w2".into(), json!(w2));
                                 }
-                                o.insert("w2_same".into(), json!(w2 == w));
+                                o.insert("w2_same".into(), json!(same));
                             }
                         },
                     }
